@@ -777,6 +777,6 @@ func TestHistories(t *testing.T) {
 		Check:      checkHistory,
 		NonTrivial: nonTrivial,
 		Classes:    classes,
-		Quick:      3000, Thorough: 40000,
+		Quick:      3000, Thorough: 20000,
 	})
 }
